@@ -26,6 +26,9 @@ pub enum End {
     ClientAbort,
     /// stays open until its session goes
     KeepOpen,
+    /// the destination ends its direction (FIN) and the client keeps its own open: the outbound
+    /// socket lives on, half-closed, until the session goes
+    KeepOpenHostFin,
     /// after the planned transfers the destination stops reading, the client uploads this
     /// many more bytes into the stalled tunnel, then the destination resets: only what the
     /// destination's socket accepted has been relayed
@@ -87,8 +90,9 @@ impl Scenario for Metrics {
                 }
                 2..=5 if !open.is_empty() => {
                     let s = *rng.pick(&open);
-                    let end = match rng.below(7) {
+                    let end = match rng.below(8) {
                         6 => End::StalledHostReset(rng.size(20_000, 300_000) as usize),
+                        7 => End::KeepOpenHostFin,
                         0 => End::HostReset,
                         1 => End::ClientAbort,
                         2 => End::KeepOpen,
@@ -436,6 +440,12 @@ async fn run(plan: MPlan) -> Obs {
                             cooperative_host(hc.clone());
                             sess.kept.push((Some(tx), Some(body), hc))
                         }
+                        End::KeepOpenHostFin => {
+                            hc.shutdown_write();
+                            while let Some(Ok(_)) = body.data().await {}
+                            cooperative_host(hc.clone());
+                            sess.kept.push((Some(tx), Some(body), hc))
+                        }
                     }
                 } else {
                     let head = format!(
@@ -488,6 +498,7 @@ async fn run(plan: MPlan) -> Obs {
                             sess.tunnels_open += 1;
                             // no further requests on this connection
                         }
+
                         End::HostReset => {
                             hc.reset();
                             loop {
@@ -524,7 +535,9 @@ async fn run(plan: MPlan) -> Obs {
                             model.sessions_h1 -= 1;
                             sess.open = false;
                         }
-                        End::Clean => {
+                        // (an HTTP/1.1 tunnel ends as a whole when the destination ends its
+                        // direction: the response is over, the connection is closed)
+                        End::Clean | End::KeepOpenHostFin => {
                             hc.shutdown_write();
                             loop {
                                 match peer.read(4096).await {
